@@ -38,4 +38,16 @@ CHECKS.update({
             "note": "Trusted: rendering of values as literals (checked by C13), TLC. Clock calls are covered by the bytecode check of C10 (NoFrozenClock) and a two-execution comparison.",
             "technique": TV},
 })
+CHECKS.update({
+    "C10": {"text": "The real bytecode of thousands of generated programs (every operator, nested ||/&&/?:/match, calls, macros, f-strings) is handed to TLC: a forward height analysis gives a verdict per program "
+                    "(jump range, underflow, meeting heights, forward-only, one value at the end, for the main block and every nested argument/macro/f-string block), then the AbsVM state machine explores both successors of every "
+                    "conditional jump with the C10 invariants in every reachable (program, block, pc, height). Clock calls must survive compilation and tick between executions.",
+            "note": "Trusted: the structural projection of ByteCode to JSON. Semantic mis-jumps that preserve heights are the business of the all-valuation run planned with VM.tla (DESIGN C10 T').",
+            "technique": "TLA+ abstract stack machine (spec/AbsVM.tla) model-checked by TLC over the recorded bytecode of the real compiler (spec/Trace_BC.tla): all paths, not only executed ones"},
+    "C12": {"text": "Every reference graph on <= 3 stored programs (successor or leaf per node) with each of 10 referencing constructs on the edges (bare identifier, macro range/body/predicate, call argument, has, coalesce, f-string, index, absorbing ||), "
+                    "acyclic out-degree-2 graphs on <= 4 programs, chains of length 1..64 through each construct, and all collision configurations of one name as type/variable/program/function/macro/map field are executed in child processes "
+                    "(main thread and a 2 MB thread) and validated by TLC against Eval.tla's resolution order and depth model (cycle detection on <program, bindings>, >= 16 nested contexts guaranteed, depth failures may abort the whole evaluation).",
+            "note": "Trusted: process exit status as crash detector; default stack sizes of this machine. Cyclic graphs with two references per program are not generated (2^32 steps to reach the depth error through absorbing constructs).",
+            "technique": TV},
+})
 NOT_YET = {}
